@@ -522,7 +522,7 @@ def rule_V(ctx, rid='C09.V', only=None):
     from .. import absint, orders, npstub
     f = ctx.prog.func(HMM + '.estimate')
     fn = absint.funcs(ctx, 'tracklib.algo.dynamics', dict(npstub.stubs()))
-    fn['progressbar'] = lambda x, **k: x
+    fn['progressbar'] = lambda x, **k: (v_ for v_ in x)          # (progressbar.progressbar wraps its iterable in a generator: it can be walked once)
     fn['log'] = math.log
     fn['exp'] = math.exp
 
@@ -597,7 +597,9 @@ def rule_V(ctx, rid='C09.V', only=None):
     found = {}
     n_models = [0]
 
-    def decode(sizes, emis, trans, logmode, label, family, reuse=None, stationary=False, switch=None, obsmode=None):
+    VERBOSE = sorted({v.value for k, v in mod.consts.items() if k.startswith('MODE_VERBOSE') and isinstance(v, ast.Constant)})
+
+    def decode(sizes, emis, trans, logmode, label, family, reuse=None, stationary=False, switch=None, obsmode=None, verbose=quiet, aborted_first=False):
         """emis[k][i], trans[k][(i, j)] are COSTS (-log likelihood); states of epoch k are named 10*k + i.
         reuse = (hmm, track) of an earlier decoding: the same objects are given the new model through the setters;
         switch = the value given as the log switch (default: the bool logmode); obsmode = (mode name, observed feature names)"""
@@ -653,10 +655,20 @@ def rule_V(ctx, rid='C09.V', only=None):
                 hmm.call('setStates', S)
                 hmm.call('setTransitionModel', Q)
                 hmm.call('setObservationModel', P)
+            if aborted_first:
+                # an earlier decoding on the same object that left through an exception (an observed feature that does not exist), asked with the other
+                # setting of the log switch: nothing of it may survive into the next decoding
+                try:
+                    hmm.call('estimate', t, 'no_such_feature', not logmode, verbose=quiet)
+                except orders.Unsupported:
+                    raise
+                except orders.PROGRAM_ERRORS:
+                    pass
+            vkw = {} if verbose == 'default' else {'verbose': verbose}
             if modeval is None:
-                hmm.call('estimate', t, obsarg, verbose=quiet)
+                hmm.call('estimate', t, obsarg, **vkw)
             else:
-                hmm.call('estimate', t, obsarg, mode=modeval, verbose=quiet)
+                hmm.call('estimate', t, obsarg, mode=modeval, **vkw)
         except orders.Unsupported as ex:
             raise shape_error('HMM.estimate not interpretable: %s' % ex, f.loc())
         except orders.PROGRAM_ERRORS as ex:
@@ -739,6 +751,17 @@ def rule_V(ctx, rid='C09.V', only=None):
             if first is not None:
                 decode((2, 2), [[0.9, 0.1], [0.3, 0.6]], [{(0, 0): 2.0, (0, 1): 2.0, (1, 0): 2.0, (1, 1): 0.1}], logmode,
                        'second use of the same decoder and track with other tables (stationarity=%s)' % stat, 'reuse', reuse=first, stationary=stat)
+    # (d2) every verbosity level (and the default one: progress bars wrap the loops over epochs and states), and a decoding after one that was aborted
+    for logmode in ((False, True) if only is None else ()):
+        for vb in VERBOSE + ['default']:
+            for target in ((0, 1, 1), (1, 0, 0), (1, 1, 0)):
+                emis = [[0.1 if i == target[k] else 2.3 for i in range(2)] for k in range(3)]
+                trans = [{(i, j): 0.4 + 0.1 * i + 0.05 * j for i in range(2) for j in range(2)} for k in range(2)]
+                decode((2, 2, 2), emis, trans, logmode, 'optimum %r decided by the observation likelihoods, verbose=%s' % (list(target), vb), 'verbosity', verbose=vb)
+        for target in ((0, 1, 1), (1, 0, 1)):
+            emis = [[0.1 if i == target[k] else 2.3 for i in range(2)] for k in range(3)]
+            trans = [{(i, j): (0.1 if (i, j) == (target[k], target[k + 1]) else 2.3) for i in range(2) for j in range(2)} for k in range(2)]
+            decode((2, 2, 2), emis, trans, logmode, 'unique optimum %r, after an aborted decoding on the same object' % list(target), 'verbosity', aborted_first=True)
     # (e) the log switch given as another falsy / truthy value than the bool (0, 1, numpy.bool_ - the result of a numpy test)
     for sw_label, sw, logmode in ((('0', 0, False), ('1', 1, True), ('numpy.bool_(False)', npstub.NpBool(False), False), ('numpy.bool_(True)', npstub.NpBool(True), True)) if only is None else ()):
         for target in itertools.product(range(2), repeat=3):
@@ -764,7 +787,7 @@ def rule_V(ctx, rid='C09.V', only=None):
             decode((2, 2, 2), emis, trans, False, 'unique optimum %r, observations %r in mode %s' % (list(target), names_, mname), 'observation modes', obsmode=(mname, names_))
     for (family, key), (desc, wit) in sorted(found.items()):
         ctx.violation(rid, f, desc, wit, node=f.node, key='%s:%s' % (family, key))
-    for family in (('orderings', 'unique', 'zeros and ones', 'reuse', 'switch kinds', 'observation modes') if only is None else only):
+    for family in (('orderings', 'unique', 'zeros and ones', 'reuse', 'verbosity', 'switch kinds', 'observation modes') if only is None else only):
         if not any(f_ == family for f_, _ in found):
             ctx.ok(rid, f, 'decoded sequence = an optimum of the enumeration, plain and log mode (%s)' % family, node=f.node)
     ctx.extra[rid + ' models'] = n_models[0]
